@@ -105,6 +105,8 @@ REACH_PROBES = [
     "second_front_end", "front_end_attached_late", "concurrent_front_ends", "reply_while_other_cell_runs",
     "cell_from_other_front_end",
 ]
+# probes that only fire together with the defect they observe (C19-K2, repaired): not "reach"
+SYMPTOM_PROBES = ["stdout_after_idle", "stdout_misparented"]
 SHRINK_LISTS = [["ops"], ["spec", "msgs"], ["spec", "msgs", "*", "frames"], ["spec", "cuts", "pos"],
                 ["spec", "eof", "pos"], ["ops", "*", "cell"], ["ops", "*", "cuts"], ["ops", "*", "ids"]]
 
